@@ -8,7 +8,7 @@ const IDENTS: &[&str] = &[
     "a1", "b_2", "result", "os", "sys", "path", "match", "print", "type",
 ];
 const STRINGS: &[&str] = &[
-    "\"\"", "\"a\"", "'b c'", "\"héllo\"", "\"日本\"", "\"a/b/c.py\"", "\"x{}y\"", "\"😀\"",
+    "\"\"", "\"a\"", "'b c'", "\"two  blanks\"", "\"héllo\"", "\"日本\"", "\"a/b/c.py\"", "\"x{}y\"", "\"😀\"",
 ];
 const BINOPS: &[&str] = &["+", "-", "*", "/", "%", "//", "<<", "&", "|"];
 const CMPOPS: &[&str] = &["==", "!=", "<", ">", "<=", ">=", "in", "is"];
